@@ -125,6 +125,11 @@ func (vc *VC) applyContractOn(callee *ssa.Function, args []Term, preIn *Heap, r 
 	pre := preIn.clone()
 	env := &Env{vc: vc, vars: map[string]Term{}, cur: pre, old: pre, pkg: callee.Pkg.Pkg}
 	vc.bindParams(env, c, callee, args)
+	if callee.Signature.Recv() != nil && len(args) > 0 {
+		ow := args[0]
+		ow.T = callee.Params[0].Type()
+		env.vars["owner"] = ow // for clauses inherited from a typed contract ("implements")
+	}
 	label := shortKey(key)
 	// receiver non-nil
 	if callee.Signature.Recv() != nil && len(args) > 0 {
@@ -384,6 +389,10 @@ func (vc *VC) dynamicCall(c *ssa.CallCommon, h *Heap, reach *string) []Term {
 			env.vars[n] = t
 		}
 	}
+	// "owner": the object whose field (a map or a plain field) the function value was loaded from
+	if ow, ok := vc.ownerOf(c.Value); ok {
+		env.vars["owner"] = ow
+	}
 	k := vc.counter("call.typed." + tc.Typed)
 	for i, cl := range tc.Requires {
 		s, err := env.evalBool(cl.Expr)
@@ -593,6 +602,9 @@ func (vc *VC) runDefers(h *Heap, reach *string, panicking string) (recovered boo
 		// a deferred call executes only if its Defer instruction was reached
 		db := d.Block()
 		if db != vc.curBlock && !db.Dominates(vc.curBlock) {
+			if !vc.ancestors(vc.curBlock)[db.Index] {
+				continue // this exit is not reachable from the defer statement: the call was never deferred
+			}
 			panic(unsupportedErr("conditional defer"))
 		}
 		if mc, ok := d.Call.Value.(*ssa.MakeClosure); ok {
@@ -730,4 +742,30 @@ func (vc *VC) panicPath(h *Heap, reach string, ms *ModSet) {
 	} else {
 		vc.safety("panic-propagates", reach, "false", "a callee may panic and no deferred call recovers")
 	}
+}
+
+// ownerOf traces a function value back to the struct it was loaded from:
+//   fv = m[k]  with  m = *(&x.field)      or      fv = *(&x.field)
+func (vc *VC) ownerOf(v ssa.Value) (Term, bool) {
+	if lk, ok := v.(*ssa.Lookup); ok {
+		v = lk.X
+	} else if ex, ok := v.(*ssa.Extract); ok {
+		if lk, ok := ex.Tuple.(*ssa.Lookup); ok {
+			v = lk.X
+		}
+	}
+	ld, ok := v.(*ssa.UnOp)
+	if !ok {
+		return Term{}, false
+	}
+	fa, ok := ld.X.(*ssa.FieldAddr)
+	if !ok {
+		return Term{}, false
+	}
+	t, ok := vc.vals[fa.X]
+	if !ok {
+		return Term{}, false
+	}
+	t.T = fa.X.Type()
+	return t, true
 }
